@@ -67,6 +67,10 @@ pub struct Case {
     /// C03: number of `next()` calls before `max()`; also the alternative block sizes
     pub consumed: usize,
     pub alt_blocks: Vec<Block>,
+    /// scan a clone of the configured sequence: a clone's buffer has no spare capacity
+    /// after its last row (matters to the sanitizer runs of C06)
+    #[serde(default)]
+    pub exact_alloc: bool,
 }
 
 fn next_up(x: f32) -> f32 {
@@ -170,9 +174,9 @@ fn case_strategy(tier: Tier, near_tie: bool) -> BoxedStrategy<Case> {
         arm_strategy(),
         any::<bool>(),
         prop_oneof![3 => Just(0usize), 2 => 1usize..=3, 1 => 4usize..=40, 1 => Just(usize::MAX)],
-        proptest::collection::vec(block_strategy(), 2),
+        (proptest::collection::vec(block_strategy(), 2), any::<bool>()),
     )
-        .prop_map(|(seq, mat, embed, extra_wrap, block, thr, arm, own_buffer, consumed, alt_blocks)| Case {
+        .prop_map(|(seq, mat, embed, extra_wrap, block, thr, arm, own_buffer, consumed, (alt_blocks, exact_alloc))| Case {
             seq,
             mat,
             embed,
@@ -183,6 +187,7 @@ fn case_strategy(tier: Tier, near_tie: bool) -> BoxedStrategy<Case> {
             own_buffer,
             consumed,
             alt_blocks,
+            exact_alloc,
         })
         .boxed()
 }
@@ -211,6 +216,9 @@ fn setup(case: &Case) -> Setup {
     striped.configure(&pssm);
     if case.extra_wrap > 0 {
         striped.configure_wrap(m - 1 + case.extra_wrap);
+    }
+    if case.exact_alloc {
+        striped = striped.clone();
     }
     let rows = striped.matrix().rows() - striped.wrap();
     let r32 = ref_scores_f32(&cells, &idx);
